@@ -516,8 +516,10 @@ func (in *inst) checkDataset(ds, prefix string, filter *queryFilter, replies []r
 		if msg.CsInfo.Capacity != uint64(snap.csCap) {
 			fail("capacity differs", fmt.Sprintf("reports capacity %d, the configured capacity is %d", msg.CsInfo.Capacity, snap.csCap))
 		}
-		if msg.CsInfo.NCsEntries != uint64(in.w.thread.GetNumCsEntries()) {
-			fail("entry count differs", fmt.Sprintf("reports %d entries, the store holds %d", msg.CsInfo.NCsEntries, in.w.thread.GetNumCsEntries()))
+		// the true number of cached packets is counted on the white-box dump of the store, not read
+		// from the counter the dataset itself is built from
+		if trueCs := len(table.VerifDumpPitCs(in.w.thread.VerifPitCs(), vtime.Now()).Cs); msg.CsInfo.NCsEntries != uint64(trueCs) {
+			fail("entry count differs", fmt.Sprintf("reports %d entries, the store holds %d", msg.CsInfo.NCsEntries, trueCs))
 		}
 	case "status/general":
 		msg, err := mgmt.ParseGeneralStatus(rd, true)
@@ -526,8 +528,9 @@ func (in *inst) checkDataset(ds, prefix string, filter *queryFilter, replies []r
 			return
 		}
 		t := in.w.thread
+		pcs := table.VerifDumpPitCs(t.VerifPitCs(), vtime.Now())
 		want := fmt.Sprintf("version=%s start=%d now=%d fib=%d pit=%d cs=%d in=%d/%d out=%d/%d sat=%d/%d", nfdVersion,
-			vtime.Epoch.UnixNano()/1e6, vtime.Now().UnixNano()/1e6, len(snap.fib), t.GetNumPitEntries(), t.GetNumCsEntries(),
+			vtime.Epoch.UnixNano()/1e6, vtime.Now().UnixNano()/1e6, len(snap.fib), len(pcs.Pit), len(pcs.Cs),
 			t.NInInterests, t.NInData, t.NOutInterests, t.NOutData, t.NSatisfiedInterests, t.NUnsatisfiedInterests)
 		got := fmt.Sprintf("version=%s start=%d now=%d fib=%d pit=%d cs=%d in=%d/%d out=%d/%d sat=%d/%d", msg.NfdVersion,
 			msg.StartTimestamp, msg.CurrentTimestamp, msg.NFibEntries, msg.NPitEntries, msg.NCsEntries,
